@@ -16,8 +16,10 @@ Binding (spec -> code, complete): every path of that graph is cut into runs (idl
 run is executed by the real PipelineManager.publish() in a scratch work dir: os.listdir returns the listings
 of the behaviour, the store is the real LocalPipelineIo behind a proxy that injects the behaviour's fault
 (Crash in two realisations: publish() in a forked child that dies by os._exit(137) at the crash point - nothing of the
-code under test runs afterwards, the parent examines the disk, the re-run happens in another process - and a
-BaseException unwinding publish(); OSError = failed transfer) at the entry of a put_item, after k bytes of its source
+code under test runs afterwards, the parent examines the disk, the re-run happens in another process - and as an
+exception unwinding publish(): KeyboardInterrupt delivered as a real SIGINT at every crash point, and in rotation over
+the crash points SystemExit, GeneratorExit, MemoryError, an Exception subclass and a BaseException subclass, each once
+or again at the next transfer if publish() carries on; OSError = failed transfer) at the entry of a put_item, after k bytes of its source
 stream (so the real put_item leaves a really truncated item) or at its exit, or - action Refuse - INSIDE the real
 put_item by making every open-for-writing below the item's store directory raise ENOSPC (builtins.open, io.open,
 os.open), so that the clean-up path of put_item runs with no destination / temporary file created;
@@ -121,7 +123,9 @@ class Graph(object):
     """The state graph TLC printed: nodes = spec states, edges labelled with the set of actions that relate them."""
 
     def __init__(self, edges, full=True):
-        self.full = full        # every Crash variant at every crash point (else: the two standing ones + one in rotation)
+        # full = True: every Crash variant at every crash point (used by --replay); otherwise the two standing ones plus
+        # `full` (a number) variants in rotation over the crash points
+        self.full = full
         self.state = {}
         self.adj = {}
         indeg = set()
@@ -165,11 +169,11 @@ class Graph(object):
 
 
 def _crash_variants(self, k):
-    if self.full:
+    if self.full is True:
         return CRASH_ALWAYS + CRASH_ROTATING
     sk = self.state[k]
     r = zlib.crc32(json.dumps([sk["listing"], sk["pc"], sk["k"], sk["faults"], sk["cur"]]).encode())
-    return CRASH_ALWAYS + [CRASH_ROTATING[r % len(CRASH_ROTATING)]]
+    return CRASH_ALWAYS + [CRASH_ROTATING[(r + j) % len(CRASH_ROTATING)] for j in range(int(self.full))]
 
 
 Graph.crash_variants = _crash_variants
@@ -1175,13 +1179,13 @@ def run(ctx):
     with ThreadPoolExecutor(4) as ex:
         futs = {k: ex.submit(tlc, k, v[0], v[1], **v[2]) for k, v in jobs.items()}
         gfuts = {tag: ex.submit(dump_graph, ctx, tlc, configs, budget, atomic,
-                                "MCPublish_%s_graph_%s_f%d" % (tag, "atomic" if atomic else "inplace", budget), None, not ctx.quick)
+                                "MCPublish_%s_graph_%s_f%d" % (tag, "atomic" if atomic else "inplace", budget), None, 1 if ctx.quick else 3)
                  for tag, budget, configs in suites if tag not in gsrc}
         res = {k: f.result() for k, f in futs.items()}
         graphs = {k: f.result() for k, f in gfuts.items()}
     for tag, budget, configs in suites:
         if tag in gsrc:
-            graphs[tag] = dump_graph(ctx, tlc, configs, budget, atomic, gsrc[tag], r=res[gsrc[tag]], full=not ctx.quick)
+            graphs[tag] = dump_graph(ctx, tlc, configs, budget, atomic, gsrc[tag], r=res[gsrc[tag]], full=1 if ctx.quick else 3)
     r2 = res["MCPublish_%s_inplace_f2_refuted" % tag0]
     if r2.violated not in ("QIndexImpliesAll", "QRefreshSafe"):
         ctx.machinery("TLC was expected to refute QIndexImpliesAll for the in-place store with 2 faults, it reports %r" % (r2.violated,))
